@@ -188,7 +188,7 @@ Proof.
       + subst u. split; [apply notcached_uncached; exact U|]. destruct Ux as (clx & Gx & _). eapply cached_after_set; eauto.
       + destruct (Al u Iu) as [NC C]. split; auto. apply cached_set_mono; auto. }
   destruct r1 as [v1|e1]; [|apply (Fin h1 l1 (hle_refl _) U1 O1)].
-  destruct v1 as [z|fl|b|s|s|l|dc|f|i|sp l| |t']; try apply (Fin h1 l1 (hle_refl _) U1 O1).
+  destruct v1 as [z|fl|b|s|s|l|dc|f|i|sp l| |t'|cr ci]; try apply (Fin h1 l1 (hle_refl _) U1 O1).
   destruct (get h1 t') as [cl'|] eqn:G'; [|exact Logic.I].
   destruct (c_cache cl') as [r|] eqn:C'; [apply (Fin h1 l1 (hle_refl _) U1 O1)|].
   destruct (existsb (Pos.eqb t') (t :: ip)) eqn:E; [exact Logic.I|].
